@@ -335,6 +335,7 @@ brk("c17-validate-skipped", ["C17"], (C, "        # Ensure that cbor2.loads() wi
 brk("c17-from-cbor-non-bytes", ["C17"], (C, "                value[child[0]] = child[1].from_cbor(cls.ensure_cbor(v))\n        return cls(value)\n\n    def to_cbor(self) -> bytes:\n        \"\"\"Dump SUIT representation to cbor encoded bytes.\"\"\"\n        data = {}", "                value[child[0]] = child[1].from_cbor(v)\n        return cls(value)\n\n    def to_cbor(self) -> bytes:\n        \"\"\"Dump SUIT representation to cbor encoded bytes.\"\"\"\n        data = {}"))
 brk("c17-version-wrap-cycle-guard-removed-new-cycle", ["C17"], (SEC, "            \"recipients*\": SuitList,", "            \"recipients*\": cbstr(SuitList),"), (SEC, 'CoseRecipient._metadata.map["recipients*"] = CoseRecipientList', 'CoseRecipient._metadata.map["recipients*"] = cbstr(CoseRecipientList)'))
 brk("c17-unfix-shared-values", ["C17"], (C, "        SuitObject.reject_shared_values(data)\n        return data\n", "        return data\n"))
+brk("c17-shared-guard-skips-strings", ["C17"], (C, "            elif isinstance(item, (bytes, str)) and len(item) > 1:\n                children = []\n", ""))
 brk("c17-shared-guard-skips-maps", ["C17"], (C, "            elif isinstance(item, Mapping):\n                children = [*item.keys(), *item.values()]\n", ""))
 brk("c17-shared-guard-wrong-error", ["C17"], (C, '                raise ValueError("CBOR shared values are not supported!")', '                raise RuntimeError("CBOR shared values are not supported!")'))
 brk("c17-validate-after-loads", ["C17"], (C, "        SuitObject.validate_cbor(cbstr)\n        try:\n            data = cbor2.loads(cbstr)\n", "        try:\n            data = cbor2.loads(cbstr)\n            SuitObject.validate_cbor(cbstr)\n"))
